@@ -239,7 +239,7 @@ type VResult<T> = Result<T, Violation>;
 
 impl<'a> Run<'a> {
     pub fn new(cfg: &'a RunCfg, vol: &VolCfg) -> Result<Run<'a>, String> {
-        let dev = vol::make_device(vol)?;
+        let (dev, truth) = vol::make_populated(vol)?;
         let geom = dev.with_store(|s| Geom::parse(s))?;
         let clock = Clock::new(1_000_000_000_000 + 777);
         let mut r = Run {
@@ -269,8 +269,17 @@ impl<'a> Run<'a> {
             base_image: None,
             flush_events: Vec::new(),
         };
+        if let Some(t) = &truth {
+            r.model.import(0, &t.root);
+            r.trace.hit("foreign_population");
+        }
         r.mount().map_err(|v| v.msg)?;
         r.last_dec = r.dev.with_store(|s| refdec::decode(s, refdec::DecodeOpts::default())).ok();
+        if truth.is_some() {
+            if let Some(dec) = &r.last_dec {
+                r.model.sync_aliases(dec);
+            }
+        }
         Ok(r)
     }
 
